@@ -23,6 +23,7 @@ def run(rep):
     rep.guard(s7, rep, w)
     rep.guard(s8, rep, w, 'C06')
     rep.guard(s9, rep, w, 'C06')
+    rep.guard(s10, rep, w, 'C06')
     import cache
     rep.guard(cache.cc1, rep, w, 'C06')     # a remembered global / attribute look-up must not outlive a write to the table it came from
     import c08
@@ -575,3 +576,37 @@ def s9(rep, w, prop='C06'):
             continue
         r.bad('%s replaces the storage of a Stack' % p_.replace('yarel::', ''), '%s assigns the storage block of a Stack that is already in use: open upvalues (raw addresses of captured variables) and the '
               'cached stack pointers keep pointing into the block that was replaced' % p_, loc)
+
+
+def s10(rep, w, prop='C06'):
+    """every name a program can declare comes from an Identifier token, which the scanner never gives to a reserved word - that is
+    what keeps `self`, `Self` and `super` (the compiler's own hidden variables) from being shadowed. A declaration whose name is
+    taken from program *data* (the file name inside an import path) bypasses the scanner, so it has to be passed through it first:
+    `import "m/super";` inside a method declared a local called super, and the next super.m() ran into unreachable!() (fix ac5baca)."""
+    r = rep.rule('S10', 'a variable name taken from program data (an import path) is checked against the reserved words before it is declared', floor=1)
+    n = 0
+    for f in sorted(w.yarel.fns.values(), key=lambda x: x.path):
+        if not f.file.endswith('compiler.rs'):
+            continue
+        decl = [bi for bi, t in f.calls() if callee_name(t) in (P + 'declare_variable', 'yarel::compiler::Compiler::add_local', P + 'parse_variable')]
+        if not decl:
+            continue
+        org = origins(f)
+        for bi, t in f.calls():
+            nm = callee_name(t) or ''
+            if not nm.startswith('yarel::scanner::Token::') or not t['args']:
+                continue
+            pl = op_place(t['args'][0])
+            if pl is None or f.operand_strings(org, t['args'][0]) or op_const(t['args'][0]) is not None:
+                continue        # a name the compiler spells itself
+            qs = org.get(pl['l'], ())
+            if not qs or all(q[0][0] == 'const' for q in qs):
+                continue
+            n += 1
+            dom = f.dominators()
+            checks = [b2 for b2, t2 in f.calls() if callee_name(t2) == 'yarel::scanner::Scanner::scan_token' and b2 in dom.get(bi, ())]
+            r.check(bool(checks), '%s: a token named by data is scanned for reserved words first' % f.path.replace(P, ''),
+                    '%s builds a name token from a string that is not a compiler constant (e.g. the file name of an import path) and declares a variable with it without '
+                    'passing it through the scanner: a module file called super / self shadows the compiler\'s hidden variable of that name' % f.path, f.loc(t.get('sp')))
+    if n < 1:
+        raise Broken(prop, 'floor', 'no data-named declaration found (import_statement names the module variable after the file)')
